@@ -17,12 +17,20 @@ def one(f):
     out = {'id': f['id'], 'property': f['property'], 'commit': f['commit']}
     try:
         subprocess.run(['git', '-C', '/repo', 'worktree', 'add', '--detach', wt, 'HEAD', '-q'], check=True)
-        r = subprocess.run(['git', '-C', wt, 'revert', '--no-commit', f['commit']], stdout=subprocess.PIPE, stderr=subprocess.STDOUT, text=True)
+        # later fix: commits that touch the same lines are reverted first (field revert_with, newest first)
+        for c in list(f.get('revert_with', [])) + [f['commit']]:
+            r = subprocess.run(['git', '-C', wt, 'revert', '--no-commit', c], stdout=subprocess.PIPE, stderr=subprocess.STDOUT, text=True)
+            if r.returncode != 0:
+                break
         if r.returncode != 0:
             out['result'] = 'revert does not apply cleanly (later fixes touch the same lines)'
             return out
         env = dict(os.environ, PYDL_SRC=wt)
+        evp = os.path.join(V, 'evidence', f['property'] + '.json')
+        saved = open(evp).read() if os.path.exists(evp) else None
         c = subprocess.run(['bin/check', f['property'], '--tier', 'quick'], cwd=V, env=env, stdout=subprocess.PIPE, stderr=subprocess.STDOUT, text=True)
+        if saved is not None:
+            open(evp, 'w').write(saved)      # the evidence file stays that of the unchanged tree
         nv = sum(1 for l in c.stdout.splitlines() if l.startswith('VIOLATION'))
         out['check_exit'] = c.returncode
         out['violation_lines'] = nv
@@ -46,8 +54,11 @@ def main():
     only = set(sys.argv[1:])
     if only:
         todo = [f for f in todo if f['property'] in only or f['id'] in only]
-    with ThreadPoolExecutor(4) as ex:
-        res = list(ex.map(one, todo))
+    groups = {}
+    for f in todo:                      # checks of one property share evidence/ and replays/: run them one after another
+        groups.setdefault(f['property'], []).append(f)
+    with ThreadPoolExecutor(int(os.environ.get('REGRESS_JOBS', '3'))) as ex:
+        res = [r for g in ex.map(lambda fs: [one(f) for f in fs], groups.values()) for r in g]
     subprocess.run(['rm', '-rf'] + [os.path.join(V, 'replays', p) for p in {f['property'] for f in todo}])
     path = os.path.join(V, 'seeded', 'regressions.json')
     old = {}
